@@ -279,12 +279,55 @@ _CL = 'all(trig(table[(min(%s, %s), max(%s, %s))], a in D.Sigma, table[(i, j)]) 
 _MIN_POST = ['dfa_wf(result)', 'result.Sigma == D.Sigma',
              'all(implies(over(D.Sigma, w), dfa_accepts(result, w) == dfa_accepts(D, w)) for w in allwords())',
              'all(implies(x in result.Q and y in result.Q and x != y, dist(result, x, y)) for x in atoms() for y in atoms())']
-contract(M, 'dfa_from_table', {'D': 'DFA', 'table': 'Map[(Int,Int),Bool]'}, returns='DFA', verify=False,
-         requires=['dfa_wf(D)',
-                   'all(((i, j) in table) == (0 <= i and i <= j and j < len(listof(D.Q))) for i in ints() for j in ints())',
-                   'all(implies(0 <= i and i <= j and j < len(listof(D.Q)), table[(i, j)] == (not dist(D, listof(D.Q)[i], listof(D.Q)[j]))) for i in ints() for j in ints())'],
-         ensures=_MIN_POST, theories=['word', 'dfa', 'nerode'], props=['C04'],
-         note='assumed: class assembly from an exact table of the Myhill-Nerode equivalence (lists of sets mutated in place, next() over generators); checked by the bounded stand-in')
+def _REP(k): return 'all(implies(0 <= m and m < %s, dist(D, q[m], q[%s])) for m in ints())' % (k, k)
+_NE = lambda k: 'any(y in Q_[%s] for y in atoms())' % k                      # the k-th set is non-empty
+_QK = 'all(implies(0 <= k and k < %s, (y in Q_[k]) == ((%s) and y in D.Q and not dist(D, q[k], y))) for k in ints() for y in atoms())'
+_RU = 'all((y in R) == any(0 <= k and k < n and y in Q_[k] for k in ints()) for y in atoms())'
+_FT_PRE = ['dfa_wf(D)',
+           'all(((i, j) in table) == (0 <= i and i <= j and j < len(listof(D.Q))) for i in ints() for j in ints())',
+           'all(implies(0 <= i and i <= j and j < len(listof(D.Q)), table[(i, j)] == (not dist(D, listof(D.Q)[i], listof(D.Q)[j]))) for i in ints() for j in ints())']
+_CLS = ['all(implies(0 <= k and k < n and (%s), Q_[k] == cls(D, q[k]) and q[k] in Q_[k]) for k in ints())' % _REP('k'),
+        'all(implies(0 <= k and k < n and not (%s), Q_[k] == set_empty()) for k in ints())' % _REP('k'),
+        'all(implies(x in D.Q, any(0 <= k and k < n and (%s) and not dist(D, q[k], x) for k in ints())) for x in atoms())' % _REP('k')]
+_DR_KEYS = 'all(implies((s, a) in delta_r, a in D.Sigma and any(0 <= k and k < n and (%s) and s == name_of_set(cls(D, q[k])) for k in ints())) for s in atoms() for a in atoms())' % _REP('k')
+def _DR_VAL(bound, extra=''):
+    return ('all(implies(0 <= k and k < %s and (%s) and a in D.Sigma%s, (name_of_set(cls(D, q[k])), a) in delta_r and '
+            'delta_r[(name_of_set(cls(D, q[k])), a)] == name_of_set(cls(D, D.delta[(q[k], a)]))) for k in ints() for a in atoms())' % (bound, _REP('k'), extra))
+contract(M, 'dfa_from_table', {'D': 'DFA', 'table': 'Map[(Int,Int),Bool]'}, returns='DFA',
+         requires=_FT_PRE, ensures=_MIN_POST + ['quot_struct(D, result)'],
+         types={'Q_': 'List[Set[State]]', 'R': 'Set[State]', 'q': 'List[State]', 'Q_r': 'Set[State]', 'F_r': 'Set[State]', 'delta_r': 'Map[(State,Symbol),State]'},
+         loops={1: {'invariant': _QL + ['len(Q_) == n', _QK % ('i', _REP('k')), _RU,
+                                        'all(implies(i <= k and k < n, y not in Q_[k]) for k in ints() for y in atoms())',
+                                        'all((y in R) == (y in D.Q and any(0 <= k and k < i and not dist(D, q[k], y) for k in ints())) for y in atoms())']},
+                2: {'invariant': _QL + ['len(Q_) == n', '0 <= i and i < n', _REP('i'), _QK % ('i', _REP('k')),
+                                        'all(implies(i < k and k < n, y not in Q_[k]) for k in ints() for y in atoms())',
+                                        'all((y in Q_[i]) == (y == q[i] or any(i < m and m < j and y == q[m] and not dist(D, q[i], q[m]) for m in ints())) for y in atoms())',
+                                        'all((y in R) == ((y in D.Q and any(0 <= k and k < i and not dist(D, q[k], y) for k in ints())) or y in Q_[i]) for y in atoms())', _RU]},
+                3: {'before': ['all(implies(x in D.Q, any(0 <= k and k < n and x in Q_[k] for k in ints())) for x in atoms())'] + _CLS + [
+                                   'all(implies(0 <= k and k < n, (%s) == (%s)) for k in ints())' % (_NE('k'), _REP('k')),
+                                   'all(implies(s in Q_r, any(0 <= k and k < n and (%s) and s == name_of_set(cls(D, q[k])) for k in ints())) for s in atoms())' % _REP('k'),
+                                   'all(implies(0 <= k and k < n and (%s), name_of_set(cls(D, q[k])) in Q_r) for k in ints())' % _REP('k'),
+                                   'all(implies(x in D.Q, name_of_set(cls(D, x)) in Q_r) for x in atoms())',
+                                   'all(implies(s in F_r, any(0 <= k and k < n and (%s) and q[k] in D.F and s == name_of_set(cls(D, q[k])) for k in ints())) for s in atoms())' % _REP('k'),
+                                   'all(implies(0 <= k and k < n and (%s) and q[k] in D.F, name_of_set(cls(D, q[k])) in F_r) for k in ints())' % _REP('k'),
+                                   'all(implies(x in D.Q and y in D.Q and not dist(D, x, y), (x in D.F) == (y in D.F)) for x in atoms() for y in atoms())',
+                                   'all(implies(x in D.F, name_of_set(cls(D, x)) in F_r) for x in atoms())'],
+                    'invariant': _QL + ['len(Q_) == n'] + _CLS + [_DR_KEYS, _DR_VAL('i'),
+                                        'all((s in Q_r) == any(x in D.Q and s == name_of_set(cls(D, x)) for x in atoms()) for s in atoms())',
+                                        'all((s in F_r) == any(x in D.F and s == name_of_set(cls(D, x)) for x in atoms()) for s in atoms())',
+                                        'q_r == name_of_set(cls(D, D.q0))']},
+                4: {'ghost': 'doneA', 'invariant': _QL + ['len(Q_) == n', '0 <= i and i < n', _REP('i'), 'Q_i == name_of_set(cls(D, q[i]))'] + _CLS + [_DR_KEYS, _DR_VAL('i'),
+                                        'all(implies(a in doneA, (Q_i, a) in delta_r and delta_r[(Q_i, a)] == name_of_set(cls(D, D.delta[(q[i], a)]))) for a in atoms())',
+                                        'all((s in Q_r) == any(x in D.Q and s == name_of_set(cls(D, x)) for x in atoms()) for s in atoms())',
+                                        'all((s in F_r) == any(x in D.F and s == name_of_set(cls(D, x)) for x in atoms()) for s in atoms())',
+                                        'q_r == name_of_set(cls(D, D.q0))']}},
+         pre_return_asserts=['all(implies(x in D.Q and 0 <= k and k < n and not dist(D, q[k], x), cls(D, q[k]) == cls(D, x)) for x in atoms() for k in ints())',
+                             'all(implies(x in D.Q and a in D.Sigma and 0 <= k and k < n and not dist(D, q[k], x), cls(D, D.delta[(q[k], a)]) == cls(D, D.delta[(x, a)])) for x in atoms() for k in ints() for a in atoms())',
+                             'all(implies(x in D.Q and a in D.Sigma, (name_of_set(cls(D, x)), a) in delta_r and delta_r[(name_of_set(cls(D, x)), a)] == name_of_set(cls(D, D.delta[(x, a)]))) for x in atoms() for a in atoms())',
+                             'quot_struct(D, DFA(Q_r, Sigma, delta_r, q_r, F_r, check_validity=False))'],
+         theories=['word', 'dfa', 'naming', 'nerode', 'quot'], props=['C04'],
+         note='class assembly from an exact table: every non-empty Q_[k] is the Myhill-Nerode class of q[k] for the first index k of the class; the result is the quotient automaton with printed classes as state names; '
+              'language equality and pairwise distinguishability follow by lemmas quot-sim / quot-lang / quot-dist. Assumption N1: print_state_set is injective')
 contract(M, 'dfa_minimize', {'D': 'DFA'}, returns='DFA', requires=['dfa_wf(D)'],
          ensures=_MIN_POST,
          types={'table': 'Map[(Int,Int),Bool]', 'q': 'List[State]'},
